@@ -5,6 +5,11 @@ Assembler side (model actions of preprocessor.lalrpop, for EVERY context):
   * `label_then_instr`   : a label is bound to the index of the instruction emitted next — also when a
                            procedure header, a macro use or a print statement follows, because every
                            emission goes through `pushCode` (`code_grows_by_push`);
+  * `label_index`        : for ANY list of items (labels, instruction-emitting productions, procedure
+                           headers and closing braces) accepted from ANY assembler state, the label at
+                           position j is bound to (instructions before) + (instruction-emitting items among
+                           the first j): the index of the first instruction that follows it in the source
+                           — induction over the item list, no bound on program size;
   * `label_last_is_hlt`  : a label that is last in the program is bound to the `hlt` the driver appends;
   * `proc_then_instr`, `implied_ret` : a procedure name is bound to its first instruction, the closing
                            brace emits `ret`;
@@ -130,5 +135,138 @@ theorem loop_repeat (hq : (p.interpreted || getFlag m.flag .TRAP) = false)
     loop p (fuel + 1) idx m ctx stdin out tr = loop p fuel idx m' ctx' stdin out (idx :: tr) := by
   simp [loop, prePrompt, stepBody, hq, hp, he]
 end
+
+end Emu8086.Props.C08
+
+/-! ### label indices for ANY list of items -/
+namespace Emu8086.Props.C08
+open Emu8086 Emu8086.Asm Emu8086.Props.C14
+
+/-- what the assembler does for the code section, abstracted to the four kinds of item that touch the
+    instruction list or the label / procedure maps (an `instr` is any production that emits one line:
+    an opcode, a print statement, a `call`, a jump …) -/
+inductive Item where
+  | label (tokText : String) (start : Nat)
+  | instr (line : String) (pos : Nat)
+  | procBegin (name : String) (a b : Nat)
+  | procEnd (stop : Nat)
+
+def Item.emits : Item → Nat
+  | .label _ _ => 0 | .instr _ _ => 1 | .procBegin _ _ _ => 0 | .procEnd _ => 1
+
+def applyItem : Item → M Unit
+  | .label t start => do let _ ← labelAction start t; pure ()
+  | .instr line pos => pushCode line pos
+  | .procBegin n a b => do let _ ← procDefAction a b n; pure ()
+  | .procEnd stop => do let _ ← procedureAction stop; pure ()
+
+def runItems : List Item → M Unit
+  | [] => pure ()
+  | i :: is => do applyItem i; runItems is
+
+def nameOf (t : String) : String := String.ofList (t.toList.take (t.length - 1))
+
+theorem lookup_filter_ne {β} (k k' : String) (h : k' ≠ k) : ∀ (l : List (String × β)),
+    (l.filter (fun p => p.1 != k)).lookup k' = l.lookup k' := by
+  intro l
+  induction l with
+  | nil => rfl
+  | cons x xs ih =>
+    obtain ⟨a, b⟩ := x
+    simp only [List.filter_cons]
+    by_cases hx : a = k
+    · subst hx
+      have h1 : ((a, b).1 != a) = false := by simp
+      have h2 : (k' == a) = false := by simpa using h
+      simp only [h1, Bool.false_eq_true, if_false, List.lookup, h2, ih]
+    · have h1 : ((a, b).1 != k) = true := by simpa using hx
+      simp only [h1, if_true, List.lookup]
+      cases (k' == a) <;> simp [ih]
+
+theorem lookup_insertAssoc_ne {β} (l : List (String × β)) (k k' : String) (v : β) (h : k' ≠ k) :
+    (insertAssoc l k v).lookup k' = l.lookup k' := by
+  have h2 : (k' == k) = false := by simpa using h
+  simp only [insertAssoc, List.lookup, h2]
+  exact lookup_filter_ne k k' h l
+
+/-- one item: how the instruction count grows, and that existing label bindings survive -/
+theorem applyItem_spec (it : Item) (s s' : St) (h : applyItem it s = .ok (⟨⟩, s')) :
+    s'.code.size = s.code.size + it.emits
+    ∧ (∀ n l, s.label? n = some l → s'.label? n = some l)
+    ∧ (∀ t start, it = .label t start → s'.label? (nameOf t) = some { type := .CODE, srcPos := start, map := s.code.size }) := by
+  cases it with
+  | label t start =>
+    cases hl : s.labels.lookup (String.ofList (t.toList.take (t.length - 1))) with
+    | some l => simp [applyItem, labelAction, St.label?, hl] at h
+    | none =>
+      simp only [applyItem, labelAction, bind_apply, get_apply, set_apply, pure_apply, map_apply, err_apply, St.label?, hl,
+        Except.ok.injEq, Prod.mk.injEq, true_and] at h
+      subst h
+      refine ⟨by simp [Item.emits], ?_, ?_⟩
+      · intro n l hn
+        simp only [St.label?] at hn ⊢
+        by_cases e : n = String.ofList (t.toList.take (t.length - 1))
+        · subst e; rw [hl] at hn; cases hn
+        · rw [lookup_insertAssoc_ne _ _ _ _ e]; exact hn
+      · intro t' start' he; cases he
+        simp [St.label?, nameOf, insertAssoc, List.lookup]
+  | instr line pos =>
+    simp only [applyItem, pushCode_apply, Except.ok.injEq, Prod.mk.injEq, true_and] at h
+    subst h
+    refine ⟨by split <;> simp [Item.emits], ?_, by intro t st he; cases he⟩
+    intro n l hn; split <;> exact hn
+  | procBegin name a b =>
+    cases hl : s.fns.lookup name with
+    | some l => simp [applyItem, procDefAction, hl] at h
+    | none =>
+      simp only [applyItem, procDefAction, bind_apply, get_apply, set_apply, pure_apply, err_apply, hl,
+        Except.ok.injEq, Prod.mk.injEq, true_and] at h
+      subst h
+      exact ⟨by simp [Item.emits], fun n l hn => hn, by intro t st he; cases he⟩
+  | procEnd stop =>
+    simp only [applyItem, procedureAction, bind_apply, pure_apply, pushCode_apply, Except.ok.injEq, Prod.mk.injEq, true_and] at h
+    subst h
+    refine ⟨by split <;> simp [Item.emits], ?_, by intro t st he; cases he⟩
+    intro n l hn; split <;> exact hn
+
+/-- **Label indices.**  For ANY list of items that the assembler accepts, starting in ANY state: the
+    label at position j is bound to (instructions emitted before the run) + (number of
+    instruction-emitting items among the first j items) — i.e. to the index of the first instruction
+    that follows the label in the source, whatever lies in between (other labels, procedure headers)
+    and whatever follows (nothing: the driver's appended `hlt`, `label_last_is_hlt`). -/
+theorem label_index (items : List Item) : ∀ (s s' : St), runItems items s = .ok (⟨⟩, s') →
+    s'.code.size = s.code.size + (items.map Item.emits).sum
+    ∧ (∀ n l, s.label? n = some l → s'.label? n = some l)
+    ∧ (∀ j t start, items[j]? = some (.label t start) →
+        s'.label? (nameOf t) = some { type := .CODE, srcPos := start, map := s.code.size + ((items.take j).map Item.emits).sum }) := by
+  induction items with
+  | nil =>
+    intro s s' h
+    simp only [runItems, pure_apply, Except.ok.injEq, Prod.mk.injEq, true_and] at h
+    subst h
+    exact ⟨by simp, fun n l hn => hn, by intro j t st hj; simp at hj⟩
+  | cons it rest ih =>
+    intro s s' h
+    simp only [runItems, bind_apply] at h
+    cases h1 : applyItem it s with
+    | error e => simp [h1] at h
+    | ok r =>
+      obtain ⟨⟨⟩, s1⟩ := r
+      simp only [h1] at h
+      obtain ⟨hsz1, hkeep1, hlab1⟩ := applyItem_spec it s s1 h1
+      obtain ⟨hsz, hkeep, hlab⟩ := ih s1 s' h
+      refine ⟨by simp only [List.map_cons, List.sum_cons]; omega, fun n l hn => hkeep n l (hkeep1 n l hn), ?_⟩
+      intro j t start hj
+      cases j with
+      | zero =>
+        simp only [List.getElem?_cons_zero, Option.some.injEq] at hj
+        have := hlab1 t start hj
+        simpa using hkeep _ _ this
+      | succ j =>
+        simp only [List.getElem?_cons_succ] at hj
+        have := hlab j t start hj
+        rw [this, hsz1]
+        simp only [List.take_succ_cons, List.map_cons, List.sum_cons]
+        congr 2; omega
 
 end Emu8086.Props.C08
